@@ -606,25 +606,26 @@ func c20Exec(in c20Input) (rec Record) {
 			// unmarshaler fields keep the bytes they recorded, only their call counter is zeroed
 			for _, l := range leaves {
 				fv := ptr.Elem().FieldByIndex(l.Path)
-				jsonish := l.F.Tag != nil && strings.Contains(*l.F.Tag, "json")
+				// (a set-up decision, not a comparison: a field decoded with the json verb has no
+				// UnmarshalBinary bound to it, so it can be put back completely)
+				jsonVerb := false
+				if l.F.Tag != nil {
+					if parts := strings.Split(*l.F.Tag, ","); len(parts) > 1 {
+						jsonVerb = slices.Contains(parts[1:], "json")
+					}
+				}
 				switch {
+				case l.F.Tid == c20TidHandle || l.F.Tid >= 6 || jsonVerb:
+					fv.Set(c20Pre(l.F.Tid))
 				case l.F.Tid == c20TidUnmVal:
 					x := fv.Interface().(C20Rec)
 					x.N = 0
-					if jsonish {
-						x = C20Rec{}
-					}
 					fv.Set(reflect.ValueOf(x))
 				case l.F.Tid == c20TidUnmNil || l.F.Tid == c20TidUnmSet:
 					// the pointer itself stays: ParseFields bound UnmarshalBinary to THIS object
 					if x := fv.Interface().(*C20Rec); x != nil {
 						x.N = 0
-						if jsonish {
-							*x = C20Rec{}
-						}
 					}
-				case l.F.Tid == c20TidHandle || l.F.Tid >= 6 || jsonish:
-					fv.Set(c20Pre(l.F.Tid))
 				}
 			}
 			baseline = make([]reflect.Value, len(leaves))
@@ -1636,14 +1637,19 @@ func c20Main(o Opts) {
 	}
 	r := NewRand(o.Seed, 20)
 	var selfSrc []Record
-	ndecl := 0
+	ndecl, nre := 0, 0
 	for i := 0; i < nrun; i++ {
 		rec := c20Exec(c20Generate(r))
 		rec.ID = out.n
 		out.Emit(rec)
 		if len(selfSrc) < 10 && i%37 == 5 {
 			selfSrc = append(selfSrc, rec)
-		} else if in := rec.Input.(c20Input); ndecl < 3 && in.Mode == "decl" {
+		} else if in := rec.Input.(c20Input); nre < 3 && in.Mode == "reapply" && in.Arg == "ptr" {
+			if f, ok := rec.Obs.(c20Full); ok && f.Obs.ErrClass == 0 && f.Obs.First != nil {
+				selfSrc = append(selfSrc, rec) // the variants alter what was observed after the SECOND Apply
+				nre++
+			}
+		} else if ndecl < 3 && in.Mode == "decl" {
 			if f, ok := rec.Obs.(c20Full); ok && f.Obs.ErrClass == 0 && len(f.Obs.Sec2) >= 2 {
 				selfSrc = append(selfSrc, rec)
 				ndecl++
